@@ -28,7 +28,7 @@ func runScript(a *App, mon *Mon, seed int64, v int) {
 		huge, _ := sdk.NewIntFromString("1000000000000000000000000000000")
 		r.w.Fund("consumer1", act.Consumers[0], huge)
 		r.w.Fund("owner2", act.Owners[1], huge)
-		r.hist.Setup.BigFunds = append(r.hist.Setup.BigFunds, FundRec{"consumer1", hexs(act.Consumers[0]), huge.String()}, FundRec{"owner2", hexs(act.Owners[1]), huge.String()})
+		r.hist.Setup.BigFunds = append(r.hist.Setup.BigFunds, FundRec{Name: "consumer1", Addr: hexs(act.Consumers[0]), Amount: huge.String()}, FundRec{Name: "owner2", Addr: hexs(act.Owners[1]), Amount: huge.String()})
 		r.Begin()
 		s = &Sc{r: r, A: act, p: p}
 	} else {
